@@ -149,7 +149,7 @@ type Fixture struct {
 	clients  []*Client
 }
 
-func newFixture() (*Fixture, error) {
+func newFixture(users []User) (*Fixture, error) {
 	l, err := NewFListener()
 	if err != nil {
 		return nil, err
@@ -159,7 +159,11 @@ func newFixture() (*Fixture, error) {
 	if ts == nil {
 		return nil, fmt.Errorf("NewTeamserver failed")
 	}
-	ts.Profile = tsx.BasicProfile(map[string]string{"op0": "pw0"}, &profile.ServiceConfig{Endpoint: SvcEndpoint, Password: "initial-service-password"})
+	um := map[string]string{}
+	for _, u := range users {
+		um[u.Name] = u.Password
+	}
+	ts.Profile = tsx.BasicProfile(um, &profile.ServiceConfig{Endpoint: SvcEndpoint, Password: "initial-service-password"})
 	// the TLS listener Start() wants gets the harness listener's (occupied) port: the
 	// bind fails, the goroutine logs it and parks forever; nothing else listens.
 	ts.Flags.Server.Host = "127.0.0.1"
@@ -195,7 +199,7 @@ func newFixture() (*Fixture, error) {
 func Acquire(users []User, svcPassword string) (*Fixture, error) {
 	Init()
 	if cur == nil {
-		f, err := newFixture()
+		f, err := newFixture(users)
 		if err != nil {
 			return nil, err
 		}
@@ -231,6 +235,46 @@ func Acquire(users []User, svcPassword string) (*Fixture, error) {
 	}
 	f.clients = nil
 	return f, nil
+}
+
+// AcquireShared returns the process's teamserver WITHOUT touching any of its state
+// (used under the race detector, where a harness-side reset would itself be reported
+// as racing with the handler goroutines of earlier cases).  The operators are fixed
+// when the teamserver is created; history accumulates across the cases of a process,
+// so callers tag their events with Nonce() and ignore everything else.
+func AcquireShared(users []User) (*Fixture, error) {
+	Init()
+	if cur == nil {
+		f, err := newFixture(users)
+		if err != nil {
+			return nil, err
+		}
+		cur = f
+	} else {
+		cur.Fresh = false
+	}
+	cur.clients = nil
+	return cur, nil
+}
+
+var nonce int
+
+// Nonce is a per-process case counter.
+func Nonce() int { nonce++; return nonce }
+
+// ForceUnlock releases client mutexes that were left locked (cleanup after the verdict
+// has been reached, so that the teamserver can be reused).
+func (f *Fixture) ForceUnlock(ids []string) {
+	for _, id := range ids {
+		if v, ok := f.TS.Clients.Load(id); ok {
+			cl := v.(*server.Client)
+			if !cl.Mutex.TryLock() {
+				cl.Mutex.Unlock()
+			} else {
+				cl.Mutex.Unlock()
+			}
+		}
+	}
 }
 
 // Quiesce waits until no goroutine of the case is left (count back at the baseline
